@@ -3,13 +3,19 @@
    [distinguishable], [hypers_of], [shallow], [wf_t] : Model/HyperSpec.v;  [valid], [all_valid], [space_size] : Model/Geno.v (C11).
    User code of CustomHyper subclasses is [cdec]/[cenc]; what each theorem assumes of it is in its statement. *)
 From PG Require Import Common.Tactics Model.Geno Model.Hyper Model.HyperSpec Model.HyperRun
-  Proofs.HyperBasics Proofs.HyperDecode Proofs.HyperEncode Proofs.HyperInstance.
+  Proofs.HyperBasics Proofs.HyperDecode Proofs.HyperEncode Proofs.HyperIter Proofs.HyperInstance.
 
 (* decoding a DNA that is valid for the template's specification can only fail inside user code *)
 Theorem C13_decode_total : forall cdec w t d, shallow w -> custom_concrete cdec -> custom_total cdec ->
   valid (dna_spec w t) d = true -> exists v, sdecode cdec w t d = Ok v.
 Proof. exact decode_total. Qed.
 Print Assumptions C13_decode_total.
+
+(* ... and never on a finite space (no float, no custom point) *)
+Theorem C13_decode_total_finite : forall cdec w t d, shallow w -> custom_concrete cdec -> finite (dna_spec w t) = true ->
+  valid (dna_spec w t) d = true -> exists v, sdecode cdec w t d = Ok v.
+Proof. exact decode_total_finite. Qed.
+Print Assumptions C13_decode_total_finite.
 
 (* no placeholder is left, except the ones the filter rejects *)
 Theorem C13_decode_concrete : forall cdec w t d v, shallow w -> custom_concrete cdec ->
@@ -36,7 +42,7 @@ Theorem C13_encode_sound : forall cdec cenc w q, no_hquirks q ->
   forall t v ds, wf_t t -> enc cenc w q t v = Ok ds ->
   exists ds', (forall p, forallb2 valid_p (pts w p t) ds' = true) /\
               forall rest, exists v', sdec cdec w t (ds' ++ rest) = Ok (v', rest) /\ veq v' v = true.
-Proof. intros cdec cenc w q Hq He Hs t v ds Hwf. exact (enc_sound cdec cenc w q Hq He Hs t Hwf v ds). Qed.
+Proof. exact encode_sound. Qed.
 Print Assumptions C13_encode_sound.
 
 (* encoding the decoded value returns the same DNA whenever the candidates are distinguishable *)
@@ -49,10 +55,36 @@ Theorem C13_encode_decode : forall cdec cenc w q, no_hquirks q ->
 Proof. exact encode_decode. Qed.
 Print Assumptions C13_encode_decode.
 
+(* two valid DNAs never decode to equal (==) values when the candidates are distinguishable *)
+Theorem C13_decode_injective : forall cdec w,
+  (forall ck s1 s2 v1 v2, cdec ck s1 = Ok v1 -> cdec ck s2 = Ok v2 -> veq v1 v2 = true -> s1 = s2) ->
+  forall t d1 d2 v1 v2, wf_t t -> distinguishable cdec w t ->
+  valid (dna_spec w t) d1 = true -> valid (dna_spec w t) d2 = true ->
+  sdecode cdec w t d1 = Ok v1 -> sdecode cdec w t d2 = Ok v2 -> veq v1 v2 = true -> d1 = d2.
+Proof. exact decode_injective. Qed.
+Print Assumptions C13_decode_injective.
+
+(* iterating a finite template: the DNAs swept are the valid ones, each once, as many as space_size (C11); every one
+   decodes and no two decode to equal values *)
+Theorem C13_iter_count : forall cdec w t, hwf t = true -> wf_t t -> finite (dna_spec w t) = true ->
+  shallow w -> custom_concrete cdec ->
+  (forall ck s1 s2 v1 v2, cdec ck s1 = Ok v1 -> cdec ck s2 = Ok v2 -> veq v1 v2 = true -> s1 = s2) ->
+  distinguishable cdec w t ->
+  let s := dna_spec w t in
+  forall fuel, length (all_valid s) <= fuel ->
+  iter s fuel = all_valid s /\ NoDup (iter s fuel) /\ space_size s = Some (N.of_nat (length (iter s fuel))) /\
+  (forall d, In d (iter s fuel) -> exists v, sdecode cdec w t d = Ok v) /\
+  (forall d1 d2 v1 v2, In d1 (iter s fuel) -> In d2 (iter s fuel) ->
+     sdecode cdec w t d1 = Ok v1 -> sdecode cdec w t d2 = Ok v2 -> veq v1 v2 = true -> d1 = d2).
+Proof. exact iter_count. Qed.
+Print Assumptions C13_iter_count.
+
 (* the custom hypers and the filters of the check meet the assumptions above *)
 Theorem C13_check_instance :
   custom_concrete std_cdec /\ (forall ck v e, std_cenc ck v = Err e -> catchable e = true) /\
   (forall ck v s, std_cenc ck v = Ok s -> exists v', std_cdec ck s = Ok v' /\ veq v' v = true) /\
-  (forall ck s v, std_cdec ck s = Ok v -> std_cenc ck v = Ok s) /\ (forall d, shallow (weval d)).
-Proof. exact (conj std_concrete (conj std_cenc_err (conj std_cenc_sound (conj std_cenc_dec weval_shallow)))). Qed.
+  (forall ck s v, std_cdec ck s = Ok v -> std_cenc ck v = Ok s) /\
+  (forall ck s1 s2 v1 v2, std_cdec ck s1 = Ok v1 -> std_cdec ck s2 = Ok v2 -> veq v1 v2 = true -> s1 = s2) /\
+  (forall d, shallow (weval d)).
+Proof. exact (conj std_concrete (conj std_cenc_err (conj std_cenc_sound (conj std_cenc_dec (conj std_cdec_inj weval_shallow))))). Qed.
 Print Assumptions C13_check_instance.
